@@ -1179,12 +1179,12 @@ const HIGH_FORMS: [HighForm; 9] = [HighForm::Absent, HighForm::Addr, HighForm::A
 
 fn die_sub() -> Sub {
     // version(4) x size(3) x fmt(2) x lowform(3) x lowval(7) x highform(9) x highval(7) x ranges(3) x target(2)
-    let radices = [4u64, 3, 2, 3, 7, 9, 7, 3, 2];
+    let radices = [4u64, 3, 2, 3, 7, 9, 7, 3, 2, 2];
     let len = mcx::space::product(&radices);
     Sub::new(
         "die_ranges-unit_ranges",
         len,
-        "Dwarf::die_ranges on a child DIE and Dwarf::unit_ranges on the root DIE: version {2,3,4,5} x address size {2,4,8} x format x DW_AT_low_pc {absent, addr, indexed} with value from B(size) x DW_AT_high_pc {absent, addr, indexed, data1, data2, data4, data8, udata, sdata} with value from B(width) (sdata: {0,1,0x10,0x20,2^62,-1,i64::MAX}) x DW_AT_ranges {absent, sec_offset/data4/data8, rnglistx (v5)}",
+        "Dwarf::die_ranges on a child DIE and Dwarf::unit_ranges on the root DIE: version {2,3,4,5} x address size {2,4,8} x format x DW_AT_low_pc {absent, addr, indexed} with value from B(size) x DW_AT_high_pc {absent, addr, indexed, data1, data2, data4, data8, udata, sdata} with value from B(width) (sdata: {0,1,0x10,0x20,2^62,-1,i64::MAX}) x DW_AT_ranges {absent, sec_offset/data4/data8, rnglistx (v5)} x attribute order {low_pc, high_pc, ranges as listed; reversed}",
         |ctx, i| {
             let mut mx = Mix(i);
             let version = *mx.pick(&[2u16, 3, 4, 5]);
@@ -1196,6 +1196,7 @@ fn die_sub() -> Sub {
             let highi = mx.take(7) as usize;
             let rk = mx.take(3);
             let root_target = mx.flag();
+            let reversed = mx.flag();
             let big = (lowi + highi) % 2 == 1;
             if rk == 2 && version < 5 {
                 ctx.outcome("die:skip-rnglistx-before-v5");
@@ -1313,6 +1314,10 @@ fn die_sub() -> Sub {
                     };
                     attrs.push(attr(m::DW_AT_RANGES, form, t));
                 }
+            }
+            if reversed {
+                // the standard does not order attributes: DW_AT_ranges, DW_AT_high_pc, DW_AT_low_pc
+                attrs.reverse();
             }
             let child_base = mid_base(size);
             let (root, child, unit_base) = if root_target {
